@@ -397,10 +397,11 @@ def finish(ctx, traces_validated, rule=None, exhaustive=False, level="model_chec
         "coverage": cov, "assumptions": ctx.assumptions, "wall_s": round(time.time() - ctx.t0, 1),
         "violations": nviol,
     }
-    os.makedirs(os.path.join(VERIF, "evidence"), exist_ok=True)
-    with open(os.path.join(VERIF, "evidence", ctx.prop + ".json"), "w") as fh:
-        json.dump(ev, fh, indent=1, sort_keys=True)
-        fh.write("\n")
+    if not ctx.replay:   # a replay run re-examines one case; it does not describe the check's coverage
+        os.makedirs(os.path.join(VERIF, "evidence"), exist_ok=True)
+        with open(os.path.join(VERIF, "evidence", ctx.prop + ".json"), "w") as fh:
+            json.dump(ev, fh, indent=1, sort_keys=True)
+            fh.write("\n")
     log("RESULT property=%s tier=%s seed=%d model_states=%d transitions=%d traces=%d lines=%d violations=%d known=%d drift=%d wall=%.0fs" % (
         ctx.prop, ctx.tier, ctx.seed, ctx.model["states"], ctx.model["transitions"], traces_validated, ctx.val["lines"],
         nviol, sum(v[1] for v in known_hits.values()), len(ctx.val["drift"]), time.time() - ctx.t0))
